@@ -30,7 +30,11 @@ CONSTANTS
                      \* same test is listed again and again (one test id then accounts for several problems)
     AllowStop, AllowSetFF, AllowSkipNoStart, AllowDone, AllowProgress,   \* BOOLEAN switches of the call alphabet
     PreFF,           \* subset of BOOLEAN: failfast set on the underlying results before wrapping
-    Coded            \* known deviations of the code switched ON in the mechanism (empty = as required)
+    Coded,           \* known deviations of the code switched ON in the mechanism (empty = as required)
+    SubErrs,         \* kinds of err the reporter may pass to addSubTest(test, subtest, err) on one of testtools' own results:
+                     \* subset of {"failure", "error", "none"} ("none": err is None, a passing subtest); {} = no such calls
+    DetIds           \* how the reporter makes its details dicts: subset of {"fresh", "reuse"} ("reuse": ONE dict object for all
+                     \* outcomes, cleared and refilled before each call)
 
 None == "none"
 NoTags == {"~"}          \* "no value" marker for tag sets (TLC cannot compare a set with a string)
@@ -81,13 +85,19 @@ AcceptsDetails(k) == k \notin OldStyle
 
 -----------------------------------------------------------------------------
 (* Calls and log events (uniform records so that TLC can compare them)      *)
-Call(op) == [op |-> op, t |-> None, kind |-> None, form |-> None, n |-> {}, g |-> {}, v |-> None, b |-> FALSE]
+\* id: "fresh" | "reuse" - the details dict of an outcome is a new object / THE one dict object the reporter keeps, cleared and
+\* refilled for this call; x: the token that makes the detail texts of this call its own (None: no detail text)
+Call(op) == [op |-> op, t |-> None, kind |-> None, form |-> None, n |-> {}, g |-> {}, v |-> None, b |-> FALSE, id |-> None, x |-> None]
 CStart(t) == [Call("startTest") EXCEPT !.t = t]
 CStopT(t) == [Call("stopTest") EXCEPT !.t = t]
 CAdd(t, kind, form) == [Call("add") EXCEPT !.t = t, !.kind = kind, !.form = form]
+TextForms == {"det", "detr", "synexc", "synreason"}     \* payload classes that carry the detail text of the call
+CAddD(t, kind, form, id, x) == [CAdd(t, kind, form) EXCEPT !.id = id, !.x = IF form \in TextForms THEN x ELSE None]
 CTags(n, g) == [Call("tags") EXCEPT !.n = n, !.g = g]
 CTime(v) == [Call("time") EXCEPT !.v = v]
 CSetFF(b) == [Call("setff") EXCEPT !.b = b]
+\* unittest.TestResult.addSubTest(test, subtest, err), inherited by testtools.TestResult: kind = class of err
+CSub(t, kind) == [Call("subtest") EXCEPT !.t = t, !.kind = kind]
 \* stream event handed to a StreamToExtendedDecorator
 CStatus(t, st, p, tg, v) == [Call("status") EXCEPT !.t = t, !.kind = st, !.form = p, !.n = tg, !.v = v]
 
@@ -147,13 +157,21 @@ TTStep(s, c) ==
       [] c.op = "time" -> [s EXCEPT !.now = c.v]
       [] c.op = "stop" -> [s EXCEPT !.stop = TRUE]
       [] c.op = "setff" -> [s EXCEPT !.ff = c.b]
+      \* inherited unittest.TestResult.addSubTest (unittest/result.py): err None -> nothing; else `if failfast: self.stop()`,
+      \* then append to self.failures (err is a test.failureException) or self.errors - NOT through addFailure/addError
+      [] c.op = "subtest" ->
+            IF c.kind = None THEN s
+            ELSE LET s1 == IF c.kind = "failure" THEN [s EXCEPT !.fails = @ + 1] ELSE [s EXCEPT !.errs = @ + 1]
+                 IN IF s.ff THEN [s1 EXCEPT !.stop = TRUE] ELSE s1
       [] OTHER -> s
 
 \* what a recording leaf writes down for a call it received (before the state change)
 LeafEv(s, c, withTags) ==
     CASE c.op \in {"startTestRun", "stopTestRun", "progress"} -> EvPlain(c.op, None)
       [] c.op \in {"startTest", "stopTest"} -> EvPlain(c.op, c.t)
-      [] c.op = "add" -> Ev("add", c.t, c.kind, c.form, IF withTags THEN Cur(s.ctx) ELSE NoTags, {}, {}, None, None)
+      \* w: the text found in the payload received (whatever the adapters made of the details current at the call)
+      [] c.op = "add" -> Ev("add", c.t, c.kind, c.form, IF withTags THEN Cur(s.ctx) ELSE NoTags, {}, {}, None,
+                            IF c.form \in TextForms THEN c.x ELSE None)
       [] c.op = "tags" -> Ev("tags", None, None, None, NoTags, c.n, c.g, None, None)
       [] c.op = "time" -> Ev("time", None, None, None, NoTags, {}, {}, c.v, None)
 
@@ -522,7 +540,9 @@ StartTest ==
     /\ UNCHANGED <<runs, ntagops, ntimes, nff, stopped>>
 Outcome ==
     /\ phase = "test"
-    /\ \E o \in Outcomes : Do(CAdd(curtest, o[1], o[2]))
+    /\ \E o \in Outcomes, d \in DetIds :
+          /\ (o[2] \notin {"det", "detr"} => d = "fresh")
+          /\ Do(CAddD(curtest, o[1], o[2], d, "x" \o ToString(ntests)))
     /\ phase' = "outcome"
     /\ UNCHANGED <<runs, ntests, ntagops, ntimes, nff, stopped, curtest>>
 StopTest ==
@@ -562,8 +582,16 @@ SetFailfast ==
     /\ nff' = nff + 1
     /\ UNCHANGED <<phase, runs, ntests, ntagops, ntimes, stopped, curtest>>
 
+\* a subtest of the test in progress ends (what unittest.TestCase.subTest reports): up to two per test, right after
+\* startTest; only on testtools' own result classes called directly - no adapter of testtools forwards addSubTest
+SubTest ==
+    /\ SubErrs # {} /\ phase = "test" /\ K(1) \in TTLike
+    /\ (Last(rh).op = "startTest" \/ (Last(rh).op = "subtest" /\ rh[Len(rh) - 1].op = "startTest"))
+    /\ \E e \in SubErrs : Do(CSub(curtest, e))
+    /\ UNCHANGED <<phase, runs, ntests, ntagops, ntimes, nff, stopped, curtest>>
+
 Next == StartTestRun \/ StopTestRun \/ Tags \/ Time \/ StartTest \/ Outcome \/ StopTest
-        \/ SkipAdd \/ SkipStop \/ Stop \/ Done \/ Progress \/ SetFailfast
+        \/ SkipAdd \/ SkipStop \/ Stop \/ Done \/ Progress \/ SetFailfast \/ SubTest
 
 \* construction: MultiTestResult.__init__ -> TestResult.__init__ assigns self.failfast = False, which the
 \* failfast property of MultiTestResult dispatches to every wrapped result (deviation "multiClearsFF")
@@ -589,14 +617,15 @@ MaxOf(S) == CHOOSE x \in S : \A y \in S : y <= x
 RunStartIn(h) == LET s == {j \in DOMAIN h : h[j].op = "startTestRun"} IN IF s = {} THEN 0 ELSE MaxOf(s)
 
 \* C04 ---------------------------------------------------------------------
-BadSince(h) == \E j \in DOMAIN h : j > RunStartIn(h) /\ h[j].op = "add" /\ h[j].kind \in Bad
+\* a problem reported: a bad outcome, or a subtest that ended with an error / a failure
+BadCall(c) == (c.op = "add" /\ c.kind \in Bad) \/ (c.op = "subtest" /\ c.kind \in {"error", "failure"})
+BadSince(h) == \E j \in DOMAIN h : j > RunStartIn(h) /\ BadCall(h[j])
 OwnTree(i) == K(i) \notin {"E2S", "S2E"} /\ ~BelowStream(i) /\ \A l \in LeavesBelow(i) : K(l) \in TTLike
 Verdict == \A i \in 1..N : OwnTree(i) => (OkGet(ns, i) <=> ~BadSince(rh))
 
 FFCapableBase == \E l \in BaseLeaves : K(l) \in TTLike \cup {"Py27", "E2S"}
 FFEffective(h) == LET s == {j \in DOMAIN h : h[j].op = "setff"} IN
                   IF s # {} THEN h[MaxOf(s)].b ELSE preff /\ FFCapableBase
-BadCall(c) == c.op = "add" /\ c.kind \in Bad
 \* with failfast set, shouldStop becomes true at the first bad outcome ...
 FailFastStops == [][(Len(rh') = Len(rh) + 1 /\ BadCall(Last(rh')) /\ FFEffective(rh')) => StopGet(ns', 1)]_vars
 \* ... and not earlier: shouldStop only ever turns true by stop() or by such an outcome
@@ -662,7 +691,8 @@ Core(e, t, k, p, v, w) == [e |-> e, t |-> t, k |-> k, p |-> p, v |-> v, w |-> w]
 \* a test reported without startTest has no start time to speak of
 HasStart(t) == \E j \in DOMAIN rh : rh[j].op = "startTest" /\ rh[j].t = t
 CoreOf(l, ev) == IF ev.e = "ontest" THEN Core(ev.e, ev.t, ev.k, ev.p, IF HasStart(ev.t) THEN ev.v ELSE None, ev.w)
-                 ELSE Core(ev.e, ev.t, ev.k, IF BelowStream(l) THEN None ELSE ev.p, None, None)
+                 ELSE Core(ev.e, ev.t, ev.k, IF BelowStream(l) THEN None ELSE ev.p, None,
+                           IF ev.e = "add" /\ ~BelowStream(l) THEN ev.w ELSE None)
 ObservedCore(l) ==
     LET evs == SelectSeq(ns[l].log, LAMBDA e : e.e \notin {"tags", "time"})
     IN [y \in DOMAIN evs |-> CoreOf(l, evs[y])]
@@ -705,7 +735,8 @@ ExpCall(k, l) ==
               [] c.op = "add" ->
                     LET d == IF BelowStream(l) THEN <<S2EKind(StreamWord(c.kind)), None>>
                              ELSE Degrade(f, c.kind, c.form)
-                        a == Core("add", c.t, d[1], d[2], None, None)
+                        \* the synthetic exception / reason (or the details passed on) carry the detail text CURRENT AT THE CALL
+                        a == Core("add", c.t, d[1], d[2], None, IF ~BelowStream(l) /\ d[2] \in TextForms THEN c.x ELSE None)
                     IN IF buffered THEN <<ev("startTest", c.t), a, ev("stopTest", c.t)>> ELSE <<a>>
               [] c.op = "progress" -> IF f = "Ext" /\ ProgressPasses(l) THEN <<ev("progress", None)>> ELSE <<>>
               [] OTHER -> <<>>
